@@ -101,6 +101,8 @@ def parseOp (s : String) : Option Op :=
   | ["li", c, i, x] => do pure (.mut [.listInsert (← nat? c) (← nat? i) (← nat? x)] [])
   | ["ld", c, i] => do pure (.mut [.listDel (← nat? c) (← nat? i)] [])
   | ["ls", c, i, x] => do pure (.mut [.listSet (← nat? c) (← nat? i) (← nat? x)] [])
+  | ["lsl", c, i, j, xs] => do pure (.mut [.listSlice (← nat? c) (← nat? i) (← nat? j) (← natList? xs)] [])
+  | ["lst", c, i, st, xs] => do pure (.mut [.listStride (← nat? c) (← nat? i) (← nat? st) (← natList? xs)] [])
   | ["lc", c] => do pure (.mut [.listClear (← nat? c)] [])
   | ["le", c, xs] => do pure (.mut [.listExtend (← nat? c) (← natList? xs)] [])
   | ["ds", c, k, x] => do pure (.mut [.dictSet (← nat? c) (← nat? k) (← nat? x)] [])
